@@ -74,6 +74,7 @@ fn main() {
                 "listeners" => engines::listeners::replay(&v),
                 "select" => engines::select::replay(&v),
                 "fd" => engines::fd::replay(&v),
+                "membership" => engines::membership::replay(&v),
                 e => Err(format!("unknown engine {e}")),
             };
             match r {
@@ -107,6 +108,9 @@ fn run_check(prop: &str, tier: Tier) -> i32 {
                 check.parts.extend(engines::kv::run("C04", tier, std::time::Instant::now()).into_iter().take(1));
             }
             check.parts.extend(engines::pair::run(p, tier, std::time::Instant::now()));
+            if p == "C01" {
+                check.parts.extend(engines::membership::run("C01", tier, std::time::Instant::now()));
+            }
         }
         "C07" => {
             check.parts.extend(engines::mtu::run(tier, started));
@@ -124,6 +128,10 @@ fn run_check(prop: &str, tier: Tier) -> i32 {
         "C10" | "C11" => {
             let p: &'static str = if prop == "C10" { "C10" } else { "C11" };
             check.parts.extend(engines::fd::run(p, tier, started));
+        }
+        "C12" | "C13" => {
+            let p: &'static str = if prop == "C12" { "C12" } else { "C13" };
+            check.parts.extend(engines::membership::run(p, tier, started));
         }
         "C09" => {
             check.parts.extend(engines::hostile::run(tier, started));
